@@ -979,3 +979,9 @@ M('C09', 'rf-gwrotate4-entry-maps-bypass-to-enforced', GW, "        let rotation
 M('C05', 'rf-itsadmin5-take-mints', 'contracts/interchain-token-service/src/token_handler.rs', "            (Direction::Take, TokenManagerType::NativeInterchainToken) => Self::Burn,", "            (Direction::Take, TokenManagerType::NativeInterchainToken) => Self::Mint,", 'C05.R2', base='itsadmin-5')
 M('C04', 'rf-itsadmin5-give-locks', 'contracts/interchain-token-service/src/token_handler.rs', "            (Direction::Give, TokenManagerType::LockUnlock) => Self::Unlock,", "            (Direction::Give, TokenManagerType::LockUnlock) => Self::Lock,", 'C04', base='itsadmin-5')
 M('C11', 'rf-itsdeploy9-handover-without-supply', ITS, "minter.filter(|_| has_initial_supply)", "minter.filter(|_| !has_initial_supply)", 'C11', base='itsdeploy-9')
+M('C03', 'total-weight-not-accumulated', AUTH, "        total_weight = total_weight\n            .checked_add(signer.weight)\n            .ok_or(ContractError::WeightOverflow)?;", "        total_weight = 0u128\n            .checked_add(signer.weight)\n            .ok_or(ContractError::WeightOverflow)?;", 'C03.R1')
+M('C01', 'signed-weight-not-accumulated', AUTH, "            total_weight = total_weight.checked_add(weight).unwrap();", "            total_weight = 0u128.checked_add(weight).unwrap();", 'C01')
+M('C03', 'rf-gwauth12-walk-total-not-accumulated', AUTH, "        self.total_weight = self\n            .total_weight\n            .checked_add(signer.weight)", "        self.total_weight = 0u128\n            .checked_add(signer.weight)", 'C03.R1', base='gwauth-12')
+M('C03', 'rf-gwauth12-walk-prev-not-updated', AUTH, "        self.previous_signer = signer.signer;\n", "", 'C03.R1', base='gwauth-12')
+M('C08', 'rf-gwauth12-old-set-rotates-without-bypass', GW, "            (false, false) => Err(ContractError::NotLatestSigners),", "            (false, false) => auth::rotate_signers(&env, &signers, true),", 'C08.R3', base='gwauth-12')
+M('C09', 'rf-gwauth12-bypass-arm-enforces-wrongly', GW, "            (false, true) => auth::rotate_signers(&env, &signers, true),", "            (false, true) => auth::rotate_signers(&env, &signers, false),", 'C09.R1', base='gwauth-12')
